@@ -21,8 +21,11 @@ EXPLANATION = "bounded exhaustive scenario enumeration; differential oracle agai
 MIN_NONTRIVIAL_FRACTION = 0.4
 MAX_S = {"quick": 900, "thorough": 7200}
 
-KINDS = ["scaled_storage", "scaled_contract", "scaled_mustrun", "scaled_take", "scaled_transport", "structured1", "structured2"]
+KINDS = ["scaled_storage", "scaled_contract", "scaled_mustrun", "scaled_take", "scaled_transport", "structured1", "structured2",
+         "scaled_mc", "scaled_ob", "scaled_struct", "scaled_storage_mip", "scaled_plant",
+         "structured_ob", "structured_plant", "structured_nested", "structured_scaled"]
 SCALABLE = ("min_cap", "max_cap", "size", "cap_in", "cap_out", "start_level", "end_level", "inflow")
+BOOL_BASE = ("scaled_storage_mip", "scaled_plant")   # base assets with boolean variables
 
 
 def gen(ch):
@@ -69,12 +72,43 @@ def gen(ch):
             step = g.dt[0] * S.MTU_H[g.mtu]
             tk = ch.pick("b.take", ["min", "max"])
             b[tk + "_take"] = S.interval_dict(g, [((("gp", 0), ("gp", T)), 1.5 * step * (2.5 if tk == "min" else 1.5))])
+        elif kind == "scaled_mc":
+            b = dict(type="MultiCommodityContract", name="b", nodes=["n1", "n2"], price="q", min_cap=0.0, max_cap=r(1.5, g),
+                     factors_commodities=[1.0, ch.pick("b.factor", [0.5, -2.0])])
+            if ch.pick("b.extra_costs", [0.0, 0.3]):
+                b["extra_costs"] = 0.3
+        elif kind == "scaled_ob":
+            sel = ch.pick("b.orders", ["inside", "two", "with_outside"])
+            O = {"inside": [((("gp", 1), ("gp", T - 1)), 1.0, 2.5)],
+                 "two": [((("gp", 0), ("gp", 2)), 1.0, 2.5), ((("gp", 1), ("gp", T)), -0.75, 4.0)],
+                 "with_outside": [((("before", 3), ("before", 1)), 1.0, 0.5), ((("gp", 1), ("gp", T - 1)), 1.0, 2.5)]}[sel]
+            b = dict(type="OrderBook", name="b", nodes=["n1"],
+                     orders=dict(start=[g.instant_iso(s0) for (s0, e0), c0, p0 in O], end=[g.instant_iso(e0) for (s0, e0), c0, p0 in O],
+                                 capa=[r(c0, g) for _, c0, p0 in O], price=[p0 for _, c0, p0 in O]))
+        elif kind == "scaled_struct":   # the base asset is itself a structured asset (internal flows are internal variables)
+            inner = [dict(type="Storage", name="isto", nodes=["ni"], size=6.0, cap_in=r(1.0, g), cap_out=r(1.0, g), start_level=0.0, end_level=0.0),
+                     dict(type="Transport", name="itr", nodes=["ni", "n1"], min_cap=r(-2.0, g), max_cap=r(2.0, g))]
+            if ch.pick("b.inner_eff", [1.0, 0.9]) != 1.0:
+                inner[1]["efficiency"] = 0.9
+            b = dict(type="StructuredAsset", name="b", nodes=["n1"], portfolio=inner)
+        elif kind == "scaled_storage_mip":
+            b = dict(type="Storage", name="b", nodes=["n1"], size=4.0, cap_in=r(0.5, g), cap_out=r(1.0, g), start_level=0.0, end_level=0.0, eff_in=0.9)
+            if ch.pick("b.mip", ["no_simult", "duration"]) == "no_simult":
+                b["no_simult_in_out"] = True
+            else:
+                b["max_store_duration"] = S.d_(2 * g.dt[0] * S.MTU_H[g.mtu], g)
+        elif kind == "scaled_plant":
+            b = dict(type="Plant", name="b", nodes=["n1"], price="q", min_cap=r(0.5, g), max_cap=r(1.5, g))
+            if ch.pick("b.start_costs", [0.0, 1.0]):
+                b["start_costs"] = 1.0
         else:
             b = dict(type="Transport", name="b", nodes=["n1", "n2"], min_cap=0.0, max_cap=r(1.0, g))
             if ch.pick("b.eff", [1.0, 0.8]) != 1.0:
                 b["efficiency"] = 0.8
             if ch.pick("b.costs", [0.0, 0.1]):
                 b["costs_const"] = 0.1
+        if kind == "scaled_ob" and (g.tz or win):
+            return None   # an order book has no life time of its own (and compares its order dates with the grid as given)
         b.update(win)
         mode = ch.pick("scale", ["fixed1", "fixed0.5", "fixed2", "fixed3", "free"])
         norm = ch.pick("norm", [1.0, 2.0, 4.0, 0.5])
@@ -96,6 +130,36 @@ def gen(ch):
             ext = ["n1", "n2"]
         if ch.pick("inner_contract", [False, True]):
             inner.append(dict(type="SimpleContract", name="icon", nodes=["ni"], price="ec", min_cap=0.0, max_cap=r(1.0, g)))
+        if kind == "structured_ob":      # an order book behind the internal node
+            if g.tz:
+                return None
+            sel = ch.pick("iob.orders", ["inside", "two", "with_outside"])
+            O = {"inside": [((("gp", 1), ("gp", T - 1)), 1.0, 2.5)],
+                 "two": [((("gp", 0), ("gp", 2)), 1.0, 2.5), ((("gp", 1), ("gp", T)), -0.75, 4.0)],
+                 "with_outside": [((("before", 3), ("before", 1)), 1.0, 0.5), ((("gp", 1), ("gp", T - 1)), 1.0, 2.5)]}[sel]
+            ob = dict(type="OrderBook", name="iob", nodes=["ni"],
+                      orders=dict(start=[g.instant_iso(s0) for (s0, e0), c0, p0 in O], end=[g.instant_iso(e0) for (s0, e0), c0, p0 in O],
+                                  capa=[r(c0, g) for _, c0, p0 in O], price=[p0 for _, c0, p0 in O]))
+            if ch.pick("iob.full_exec", [False, True]):
+                ob["full_exec"] = True
+            inner.insert(ch.free("iob.pos", [0, 2]), ob)
+        elif kind == "structured_plant":  # a unit with on/off variables behind the internal node
+            pl = dict(type="Plant", name="ipl", nodes=["ni"], price="q", min_cap=r(1.0, g), max_cap=r(3.0, g))
+            if ch.pick("ipl.start_costs", [0.0, 2.0]):
+                pl["start_costs"] = 2.0
+            if ch.pick("ipl.min_runtime", [0, 2]):
+                pl["min_runtime"] = S.d_(2 * g.dt[0] * S.MTU_H[g.mtu], g)
+            inner.insert(ch.free("ipl.pos", [0, 2]), pl)
+        elif kind == "structured_nested":  # the storage sits in a structured asset of its own, one level deeper
+            deep = dict(type="StructuredAsset", name="deep", nodes=["ni"],
+                        portfolio=[dict(type="Storage", name="dsto", nodes=["nd"], size=3.0, cap_in=r(0.5, g), cap_out=r(0.5, g), start_level=0.0, end_level=0.0),
+                                   dict(type="Transport", name="dtr", nodes=["nd", "ni"], min_cap=r(-1.0, g), max_cap=r(1.0, g),
+                                        efficiency=ch.pick("dtr.eff", [1.0, 0.9]))])
+            inner.append(deep)
+        elif kind == "structured_scaled":  # a scaled asset behind the internal node
+            sb = dict(type="Storage", name="sb", nodes=["ni"], size=3.0, cap_in=r(0.5, g), cap_out=r(0.5, g), start_level=0.0, end_level=0.0)
+            inner.append(dict(type="ScaledAsset", name="isc", base_asset=sb, min_scale=0.0, max_scale=ch.pick("isc.max", [2.0, 0.0]), norm_scale=1.0,
+                              fix_costs=r(ch.pick("isc.fix", [0.01, 0.0]), g)))
         st = dict(type="StructuredAsset", name="st", nodes=ext, portfolio=inner)
         w = ch.pick("st.window", wmenu)
         s_, e_ = S.resolve_window(g, w)
@@ -103,10 +167,12 @@ def gen(ch):
             st["start"] = s_
         if e_:
             st["end"] = e_
+        if kind == "structured_ob" and (s_ or e_):
+            return None   # an order book cannot be given a life time in the flat reference portfolio
         iw = ch.pick("inner.window", [None, (("gp", 1), None), (None, ("gp", T - 1)), (("gp", 2), ("gp", T)), (None, ("gp", 2))])
         if iw:
             s2, e2 = S.resolve_window(g, iw)
-            tgt = inner[ch.free("inner.which", [0, 1])]
+            tgt = [x for x in inner if x["type"] != "OrderBook"][ch.free("inner.which", [0, 1])]   # (an order book has no life time of its own)
             if s2:
                 tgt["start"] = s2
             if e2:
@@ -129,16 +195,22 @@ def build_cases(tier):
 def plain_scaled(scn, s):
     """the equivalent plain portfolio of a scaled-asset scenario at scale s"""
     out = copy.deepcopy(scn)
+
+    def scale(b, f):
+        for k in SCALABLE:
+            if k in b and isinstance(b[k], (int, float)):
+                b[k] = b[k] * f
+        for k in ("min_take", "max_take"):
+            if k in b:
+                b[k] = dict(b[k], values=[v * f for v in b[k]["values"]])
+        if "orders" in b:
+            b["orders"] = dict(b["orders"], capa=[v * f for v in b["orders"]["capa"]])
+        for x in b.get("portfolio", []):
+            scale(x, f)
     for i, a in enumerate(out["assets"]):
         if a["type"] == "ScaledAsset":
             b = copy.deepcopy(a["base_asset"])
-            f = s / a["norm_scale"]
-            for k in SCALABLE:
-                if k in b and isinstance(b[k], (int, float)):
-                    b[k] = b[k] * f
-            for k in ("min_take", "max_take"):
-                if k in b:
-                    b[k] = dict(b[k], values=[v * f for v in b[k]["values"]])
+            scale(b, s / a["norm_scale"])
             b["name"] = a["name"]
             out["assets"][i] = b
     return out
@@ -155,14 +227,18 @@ def flat_structured(scn):
     out = copy.deepcopy(scn)
     g = Grid.from_json(scn["grid"])
     from ref.grid import parse_instant
+    def flatten(a):
+        inner = []
+        for x in copy.deepcopy(a["portfolio"]):
+            for key, pick in (("start", max), ("end", min)):
+                vals = [v for v in (x.get(key), a.get(key)) if v]
+                if vals:
+                    x[key] = pick(vals, key=lambda v: parse_instant(v, g.tz))
+            inner.extend(flatten(x) if x["type"] == "StructuredAsset" else [x])
+        return inner
     for i, a in enumerate(out["assets"]):
         if a["type"] == "StructuredAsset":
-            inner = copy.deepcopy(a["portfolio"])
-            for x in inner:
-                for key, pick in (("start", max), ("end", min)):
-                    vals = [v for v in (x.get(key), a.get(key)) if v]
-                    if vals:
-                        x[key] = pick(vals, key=lambda v: parse_instant(v, g.tz))
+            inner = flatten(a)
             out["assets"][i:i + 1] = inner
             return out, [x["name"] for x in inner], a
     raise ValueError
@@ -173,6 +249,8 @@ def run_case(case):
     meta = scn["meta"]
     tags = S.feature_tags(scn) + ["kind:" + meta["kind"]]
     ctag = ["kind:" + meta["kind"]]
+    if meta["kind"] in BOOL_BASE:
+        tags.append("scaled:bool_base")
     res = dict(status="ok", violations=[], counters={})
     V = res["violations"]
     run = ImplRun(scn, solver="SCIPY")
